@@ -172,7 +172,26 @@ class _P:
 FLAT = {op: 1 for op in _BINPREC}
 
 
+_CACHE = {}
+
+
 def parse(formula, prec=None, right=False):
+    if prec is None and not right:
+        if formula not in _CACHE:
+            if len(_CACHE) > 50000:
+                _CACHE.clear()
+            try:
+                _CACHE[formula] = _parse(formula)
+            except ParseError as e:
+                _CACHE[formula] = e
+        v = _CACHE[formula]
+        if isinstance(v, ParseError):
+            raise v
+        return v
+    return _parse(formula, prec, right)
+
+
+def _parse(formula, prec=None, right=False):
     """formula: cell text starting with '='  -> AST (tuples).  prec/right: deliberately WRONG groupings, used only
     to decide whether a mis-grouping of this formula would be observable under a valuation."""
     if not formula.startswith('='):
